@@ -228,6 +228,10 @@ def match_known(known, summ):
             continue
         if "report_any" in sig and not any(x in hay for x in sig["report_any"]):
             continue
+        # functions that must NOT occur in the sanitizer report's own stacks (allocated-by / freed-by / used-by): tells a listed finding from a
+        # different defect that surfaces through the same callers
+        if "report_none" in sig and any(x in summ["funcs"] for x in sig["report_none"]):
+            continue
         return kf
     return None
 
